@@ -11,6 +11,7 @@ mod prng;
 mod w1;
 mod w2;
 mod w3;
+mod w5;
 mod elem;
 mod vut;
 mod dual;
@@ -22,16 +23,20 @@ use framework::{Check, Tier};
 static C01: w1::W1Check = w1::W1Check { id: "C01" };
 static C02: w1::W1Check = w1::W1Check { id: "C02" };
 static C13: dual::Dual = dual::Dual { id: "C13", a: &w1::W1Check { id: "C13" }, b: &w3::W3Check { id: "C13" } };
+static C09: w5::W5Check = w5::W5Check { id: "C09" };
+static C10: w5::W5Check = w5::W5Check { id: "C10" };
+static C11: w5::W5Check = w5::W5Check { id: "C11" };
+static C12W5: w5::W5Check = w5::W5Check { id: "C12" };
+static C12B: dual::Dual = dual::Dual { id: "C12", a: &w2::W2Check { id: "C12" }, b: &C12W5 };
 static C03: w3::W3Check = w3::W3Check { id: "C03" };
 static C04: w3::W3Check = w3::W3Check { id: "C04" };
 static C07: w3::W3Check = w3::W3Check { id: "C07" };
 static C08: w3::W3Check = w3::W3Check { id: "C08" };
 static C20: w3::W3Check = w3::W3Check { id: "C20" };
 static C05: w2::W2Check = w2::W2Check { id: "C05" };
-static C12: w2::W2Check = w2::W2Check { id: "C12" };
 
 fn checks() -> Vec<&'static dyn Check> {
-    vec![&C01, &C02, &C13, &C05, &C12, &C03, &C04, &C07, &C08, &C20]
+    vec![&C01, &C02, &C13, &C05, &C12B, &C03, &C04, &C07, &C08, &C20, &C09, &C10, &C11]
 }
 
 fn parse_tier(s: &str) -> Tier {
